@@ -486,3 +486,134 @@ class Case:
         fn = "case_" + "".join(ch if ch.isalnum() else "_" for ch in self.cid)
         decls = [f"  std::optional<{self.cpp_type(k)}> s{s};" for s, k in sorted(self.kind.items())]
         return fn, "\n".join([f"void {fn}() {{", f'  const char *CID = "{self.cid}";'] + decls + self.body + ["}"]) + "\n"
+
+
+# ---------------------------------------------------------------------------
+# text -> Case (used to replay recorded histories)
+# ---------------------------------------------------------------------------
+class _Toks:
+    def __init__(self, toks):
+        self.t = toks
+        self.i = 0
+
+    def next(self):
+        v = self.t[self.i]
+        self.i += 1
+        return v
+
+    def int(self):
+        return int(self.next())
+
+    def fr(self):
+        return Fraction(self.next())
+
+    def list(self, f):
+        n = self.int()
+        return [f() for _ in range(n)]
+
+
+def parse_scalar(tk):
+    k = tk.next()
+    return Sc('F', tk.fr()) if k == 'F' else Sc('I', tk.int())
+
+
+def parse_expr(tk):
+    h = tk.next()
+    if h == 'Id':
+        return E('Id')
+    if h in ('Pos', 'Der', 'Spl'):
+        return E(h, tk.int())
+    if h in ('Mul', 'Add', 'Sub'):
+        a = parse_expr(tk)
+        b = parse_expr(tk)
+        return E(h, a, b)
+    if h in ('SMulL', 'SAdd', 'SSub'):
+        s = parse_scalar(tk)
+        a = parse_expr(tk)
+        return E(h, s, a)
+    if h in ('SMulR', 'DivS', 'AddS', 'SubS'):
+        a = parse_expr(tk)
+        s = parse_scalar(tk)
+        return E(h, a, s)
+    if h == 'Neg':
+        return E('Neg', parse_expr(tk))
+    raise ValueError(h)
+
+
+def replay_line(c, text):
+    """appends the operation written in `text` to case c (inverse of Case._emit's text)"""
+    tk = _Toks(text.split())
+    op = tk.next()
+    I, Fq = tk.int, tk.fr
+    simple = {
+        'GridCopy': (c.grid_copy, 'ii'), 'GridAt': (c.grid_at, 'ii'), 'GridFind': (c.grid_find, 'if'),
+        'GridEq': (c.grid_eq, 'ii'), 'GridSize': (c.grid_size, 'i'), 'GridFront': (c.grid_front, 'i'),
+        'GridBack': (c.grid_back, 'i'),
+        'SupNew': (c.sup_new, 'iiii'), 'SupEmpty': (c.sup_empty, 'ii'), 'SupWhole': (c.sup_whole, 'ii'),
+        'SupCopy': (c.sup_copy, 'ii'), 'SupMove': (c.sup_move, 'ii'), 'SupMoveAssign': (c.sup_move_assign, 'ii'),
+        'SupUnion': (c.sup_union, 'iii'), 'SupInter': (c.sup_inter, 'iii'), 'SupRel': (c.sup_rel, 'ii'),
+        'SupIvl': (c.sup_ivl, 'ii'), 'SupAbs': (c.sup_abs, 'ii'), 'SupAt': (c.sup_at, 'ii'), 'SupSub': (c.sup_sub, 'ii'),
+        'SupFront': (c.sup_front, 'i'), 'SupBack': (c.sup_back, 'i'), 'SupIter': (c.sup_iter, 'i'),
+        'SupEq': (c.sup_eq, 'ii'), 'SupSameGrid': (c.sup_same_grid, 'ii'), 'SupIsEmpty': (c.sup_is_empty, 'i'),
+        'SupContains': (c.sup_contains, 'i'), 'SupGrid': (c.sup_grid, 'ii'),
+        'SplEmpty': (c.spl_empty, 'iii'), 'SplCopy': (c.spl_copy, 'ii'), 'SplMove': (c.spl_move, 'ii'),
+        'SplMoveAssign': (c.spl_move_assign, 'ii'), 'SplAssignUp': (c.spl_assign_up, 'ii'),
+        'SplScale': (c.spl_scale, 'iif'), 'SplScaleL': (c.spl_scale_l, 'ifi'), 'SplDiv': (c.spl_div, 'iif'),
+        'SplNeg': (c.spl_neg, 'ii'), 'SplIMul': (c.spl_imul, 'if'), 'SplIDiv': (c.spl_idiv, 'if'),
+        'SplAdd': (c.spl_add, 'iii'), 'SplSub': (c.spl_sub, 'iii'), 'SplMul': (c.spl_mul, 'iii'),
+        'SplIAdd': (c.spl_iadd, 'ii'), 'SplISub': (c.spl_isub, 'ii'), 'SplEval': (c.spl_eval, 'if'),
+        'SplFront': (c.spl_front, 'i'), 'SplBack': (c.spl_back, 'i'), 'SplIsZero': (c.spl_is_zero, 'i'),
+        'SplOverlap': (c.spl_overlap, 'ii'), 'SplEq': (c.spl_eq, 'ii'), 'SplSupport': (c.spl_support, 'ii'),
+        'Show': (c.show, 'i'),
+    }
+    if op in simple:
+        fn, sig = simple[op]
+        fn(*[(I() if k == 'i' else Fq()) for k in sig])
+    elif op == 'GridNew':
+        d = I()
+        c.grid_new(d, tk.list(Fq))
+    elif op == 'SplNew':
+        d, o, s, m = I(), I(), I(), I()
+        c.spl_new(d, o, s, [[Fq() for _ in range(o + 1)] for _ in range(m)])
+    elif op == 'SplLinComb':
+        d = I()
+        cs = tk.list(Fq)
+        ss = tk.list(I)
+        c.spl_lincomb(d, cs, ss, order=0)
+    elif op == 'Apply':
+        d, a = I(), I()
+        c.apply(d, parse_expr(tk), a)
+    elif op == 'Transform':
+        g, k = I(), I()
+        co = tk.list(Fq)
+        c.transform(parse_expr(tk), co, g, k)
+    elif op == 'Bilin':
+        a, b = I(), I()
+        e1 = parse_expr(tk)
+        e2 = parse_expr(tk)
+        c.bilin(e1, e2, a, b)
+    elif op == 'Lin':
+        a = I()
+        c.lin(parse_expr(tk), a)
+    elif op == 'Gen1':
+        d0, o = I(), I()
+        c.gen1(d0, o, tk.list(Fq))
+    elif op == 'Gen2':
+        d0, o, g = I(), I(), I()
+        c.gen2(d0, o, tk.list(Fq), g)
+    elif op == 'InterpDefault':
+        d, o, x = I(), I(), I()
+        c.interp(d, o, x, tk.list(Fq), None)
+    elif op == 'Interp':
+        d, o, x = I(), I(), I()
+        y = tk.list(Fq)
+        n = I()
+        bs = []
+        for _ in range(n):
+            node = tk.next()
+            dd = I()
+            v = Fq()
+            bs.append((node, dd, v))
+        c.interp(d, o, x, y, bs)
+    else:
+        raise ValueError("unknown op " + op)
